@@ -363,7 +363,7 @@ class Stepper:
 
 def steps_check(case):
     c = case
-    sig = {"backend": c["backend"], "stream": "steps"}
+    sig = {"backend": c["backend"]}
     res = dict(ok=True, kind="oracle", clause="", nontrivial=False, sig=sig, desc=[])
     valid = model().call(F_XREPLAY, [c["pop"], c["workers"], False, list(range(c["queue"])), [], [], [], []])[0]
     st = None
